@@ -3,6 +3,7 @@ package arith
 import (
 	"fmt"
 	"strconv"
+	"strings"
 
 	"github.com/moov-io/ach"
 
@@ -221,7 +222,21 @@ func Perturb(r *rng.R, f *ach.File, kind int) (desc string, t Target, batchLevel
 		if e.trace == nil {
 			return "ADV entry has no trace", t, true, false
 		}
-		switch r.Intn(3) {
+		switch r.Intn(4) {
+		case 3:
+			// the trace number without its leading zeros (or with an extra one): the 15 column field
+			// is unchanged or shifted, the string the checks compare is not
+			tr := *e.trace
+			if strings.HasPrefix(tr, "0") && r.Bool() {
+				*e.trace = strings.TrimLeft(tr, "0")
+				desc = "trace number without its leading zeros"
+			} else if len(tr) > 1 && r.Bool() {
+				*e.trace = tr[1:]
+				desc = "trace number without its first digit"
+			} else {
+				*e.trace = "0" + tr
+				desc = "trace number with an extra leading zero"
+			}
 		case 0:
 			if len(es) < 2 {
 				return "single entry", t, true, false
